@@ -16,10 +16,25 @@ Small(x, b) == x >= -b /\ x <= b
 \* ------------------------------------------------------------------ tolerance map
 TolClass(bps, x) == IF Len(bps) = 0 THEN "empty" ELSE IF XLt(x, bps[1]) THEN "below"
                     ELSE IF XGt(x, bps[Len(bps)]) THEN "beyond" ELSE "inside"
+\* a table built by offering values to push one at a time: a value is accepted exactly when it is not below the last accepted
+\* one (the table stays ascending; a rejected push changes nothing)
+RECURSIVE PushTableFrom(_, _, _)
+PushTableFrom(ps, k, acc) == IF k > Len(ps) THEN acc
+                             ELSE IF acc # <<>> /\ ps[k] < acc[Len(acc)] THEN PushTableFrom(ps, k + 1, acc)
+                             ELSE PushTableFrom(ps, k + 1, Append(acc, ps[k]))
+PushTable(ps) == PushTableFrom(ps, 1, <<>>)
+RECURSIVE PushFlagsFrom(_, _, _, _)
+PushFlagsFrom(ps, k, last, fl) == IF k > Len(ps) THEN fl
+                                  ELSE IF last # <<>> /\ ps[k] < last[1] THEN PushFlagsFrom(ps, k + 1, last, Append(fl, FALSE))
+                                  ELSE PushFlagsFrom(ps, k + 1, <<ps[k]>>, Append(fl, TRUE))
 JTol(r) ==
     LET o == r.out n == Len(r.xs)
-        Good(cls) == \A j \in 1..n : TolClass(r.bps, r.xs[j]) = cls => o.z[j] \in TolAllowed(r.bps, r.xs[j]) IN
+        pushed == "pushes" \in DOMAIN r
+        bps == IF pushed THEN PushTable(r.pushes) ELSE r.bps
+        Good(cls) == \A j \in 1..n : TolClass(bps, r.xs[j]) = cls => o.z[j] \in TolAllowed(bps, r.xs[j]) IN
     /\ Clause(i, "C16.tolmap.constructed", o.ok)
+    /\ (o.ok /\ pushed) => /\ Clause(i, "C16.tolmap.push_accepts_exactly_not_below_last", o.acc = PushFlagsFrom(r.pushes, 1, <<>>, <<>>))
+                           /\ Clause(i, "C16.tolmap.rejected_push_changes_nothing", o.table = bps)
     /\ o.ok => /\ Clause(i, "C16.tolmap.shape", Len(o.z) = n)
                /\ Len(o.z) = n =>
                     /\ Clause(i, "C16.tolmap.empty_is_none", Good("empty"))
